@@ -711,7 +711,7 @@ pub fn run(mut ctx: Ctx) -> ! {
 
     ctx.run_exhaustive(
         "fault_sweep",
-        "15 honest scenarios (live on/off, data on neither/one/both sides, ended by peer Close / local Close / bare closure) x \
+        "24 honest scenarios (live on/off, data on neither/one/both sides, ended by peer Close / local Close / bare closure) x \
          {no fault, stream closed after every prefix, error item at every position, sink failing at each of its first \
          ready/send/flush (6) and close (2) calls, one-shot and sticky}; non-trivial = the fault took effect after at least \
          one protocol message was exchanged",
@@ -727,10 +727,10 @@ pub fn run(mut ctx: Ctx) -> ! {
              position, stream closed at any position, error item at any position, sink failing at its k-th \
              ready/send/flush/close (one-shot or sticky); generated interleaving of deliver/local-input/take steps; \
              non-trivial = the fault took effect after at least one protocol message was exchanged",
-            12_000,
-            300_000,
+            40_000,
+            1_000_000,
         )
-        .min_nontrivial(0.25),
+        .min_nontrivial(0.4),
         case_strategy,
         move |c: &Case| check_case(c, allow_missing_start),
     );
